@@ -392,3 +392,15 @@ package generator
 //@ ensures vs_anyConstraint(&sg.Schema) ==> result.HasValidations
 //@ ensures sg.Required && sg.Schema.Default == nil && !sg.Schema.ReadOnly ==> result.HasValidations
 //@ ensures result.HasSliceValidations == (sg.Schema.MaxItems != nil || sg.Schema.MinItems != nil || sg.Schema.UniqueItems || len(sg.Schema.Enum) > 0)
+
+// the application-level authenticators: the map built by the loop holds every required scheme that
+// the document defines, with that definition (loop invariants, exit state = the map handed on), and
+// the result is gatherSecuritySchemes' (what the generated API struct, its Validate and
+// AuthenticatorsFor are rendered from). The same statement as a postcondition over the argument
+// recorded at the call did not discharge (the callee has no proved frame: sort.Sort inside).
+//@ func (*appGenerator).makeSecuritySchemes
+//@ props C06
+//@ ensures vs_called("gatherSecuritySchemes") && vs_same(result, vs_callResult[GenSecuritySchemes]("gatherSecuritySchemes", 0))
+//@ loop 1 invariant requiredSecuritySchemes != nil
+//@ loop 1 invariant vs_all(func(i int) bool { return 0 <= i && i < vs_done(1) && vs_has(a.SpecDoc.Spec().SecurityDefinitions, vs_callResult[[]string]("RequiredSecuritySchemes", 0)[i]) && a.SpecDoc.Spec().SecurityDefinitions[vs_callResult[[]string]("RequiredSecuritySchemes", 0)[i]] != nil ==> vs_has(requiredSecuritySchemes, vs_callResult[[]string]("RequiredSecuritySchemes", 0)[i]) })
+//@ loop 1 invariant vs_all(func(k string) bool { return vs_has(requiredSecuritySchemes, k) ==> vs_has(a.SpecDoc.Spec().SecurityDefinitions, k) && a.SpecDoc.Spec().SecurityDefinitions[k] != nil && requiredSecuritySchemes[k].Type == a.SpecDoc.Spec().SecurityDefinitions[k].Type && requiredSecuritySchemes[k].In == a.SpecDoc.Spec().SecurityDefinitions[k].In && requiredSecuritySchemes[k].Name == a.SpecDoc.Spec().SecurityDefinitions[k].Name })
